@@ -6,6 +6,7 @@ import (
 	"pgregory.net/rapid"
 	"verif/harness/asam"
 	"verif/harness/evid"
+	"verif/harness/iosm"
 )
 
 const ruleC14 = "pairs (old ACL, new ACL) over a tiny address/port universe with heavy overlap, groups identical on both sides; after every step of the script every packet of the universe on which old and new agree must get that verdict from the currently bound ACL; " +
@@ -19,6 +20,27 @@ func TestC14(t *testing.T) {
 			p := asam.GenPair(rt, asam.GenOpts{FixedGroup: true})
 			c := asaCase("C14", p)
 			judge(rt, ev, oracleC14asa, c, func() any { return c })
+		})
+	})
+	// Second ASA arm: groups may differ between device and target, so that
+	// lines are replaced because their group cannot be equalized in place;
+	// cases with an in-place membership edit of an existing group are
+	// discarded by the oracle (outside the property).
+	t.Run("asa-groups", func(t *testing.T) {
+		rapid.Check(t, func(rt *rapid.T) {
+			p := asam.GenPair(rt, asam.GenOpts{})
+			c := asaCase("C14", p)
+			v := judge(rt, ev, oracleC14asa, c, func() any { return c })
+			if v.Status == Pass && v.NT {
+				ev.Class("c14:groups-arm-nontrivial")
+			}
+		})
+	})
+	t.Run("ios", func(t *testing.T) {
+		rapid.Check(t, func(rt *rapid.T) {
+			p := iosm.GenPair(rt, iosm.GenOpts{})
+			c := iosCase("C14", p)
+			judge(rt, ev, oracleC14ios, c, func() any { return c })
 		})
 	})
 }
